@@ -18,9 +18,11 @@ import (
 var c10Muts = []string{scen.MutSeq, scen.MutSeq, scen.MutProofKey, scen.MutProver, scen.MutProofHeight, scen.MutSrc, scen.MutDst, scen.MutTarget, scen.MutProofBytes}
 
 func init() {
-	register(&core.Profile{Name: "c10-cleans", Property: "C10", Weight: 3, Run: func(c *core.Ctx) { runC10(c, false) },
+	register(&core.Profile{Name: "c10-cleans", Property: "C10", Weight: 3, Run: func(c *core.Ctx) { runC10(c, false, false) },
 		Doc: "3 chains, several packets per channel in different stages (sent, delivered, acked out of order), direct and relayed; users request cleans with N around every boundary; relayers forward, reorder, duplicate and replay cleans; Byzantine MsgRecvCleanPacket"})
-	register(&core.Profile{Name: "c10-cleans-crash", Property: "C10", Weight: 1, Fault: true, Run: func(c *core.Ctx) { runC10(c, true) },
+	register(&core.Profile{Name: "c10-long-channel", Property: "C10", Weight: 2, Run: func(c *core.Ctx) { runC10(c, false, true) },
+		Doc: "same, but most sends go over one (source,destination) pair so that it carries 10-40 packets with acknowledgements far out of order (two-digit sequences, cleans across long ranges)"})
+	register(&core.Profile{Name: "c10-cleans-crash", Property: "C10", Weight: 1, Fault: true, Run: func(c *core.Ctx) { runC10(c, true, false) },
 		Doc: "same with crash/restart"})
 }
 
@@ -89,7 +91,7 @@ func sourceCleanAdmissible(e *scen.Engine, n *world.Node, pr model.Pair, N uint6
 	return true, ""
 }
 
-func runC10(c *core.Ctx, crashes bool) {
+func runC10(c *core.Ctx, crashes, deep bool) {
 	ch := c.Ch
 	w, e := buildTraffic(c, 3, world.DefaultClientParams())
 	e.DumpStores = []string{"tibc"}
@@ -98,6 +100,16 @@ func runC10(c *core.Ctx, crashes bool) {
 	uni := scen.DefaultUniverse()
 	uni.BadReceiverPct = 15
 	e.SeedTokens(uni, 3)
+	if deep {
+		A := w.Nodes[0]
+		e.IssueMTDenom(A, w.Users[0], "deepclass")
+		for _, d := range A.App.MtKeeper.GetDenoms(A.QueryCtx()) {
+			if d.Owner == w.Users[0].Addr.String() {
+				e.MintMT(A, w.Users[0], d.Id, "", 100000, w.Users[0])
+				break
+			}
+		}
+	}
 	cleansAccepted, cleanMsgs := 0, 0
 
 	e.OnUserTx = func(a *scen.UserAct, n *world.Node, r *world.TxResult, before map[string]string) {
@@ -173,6 +185,26 @@ func runC10(c *core.Ctx, crashes bool) {
 		c.Step("c10")
 		switch ch.Pick([]int{22, 34, 14, 8, 12, 6, 4}) {
 		case 0:
+			if deep && ch.Bool(3, 4) {
+				// one long channel: many small transfers on the same (source, destination) pair, so that
+				// sequences reach two digits and acknowledgements arrive far out of order
+				A := w.Nodes[0]
+				holder := w.Users[0]
+				for _, b := range func() []world.MTBalance { bs, _ := A.MTSnapshot(); return bs }() {
+					if b.Owner == holder.Addr.String() && b.Amount > 0 {
+						relay := ""
+						if ch.Bool(1, 5) {
+							relay = w.Nodes[2].Name
+						}
+						for k := 0; k < 1+ch.Int(4); k++ {
+							e.MtTransfer(A, holder, b.Class, b.ID, 1, w.Users[1].Addr.String(), w.Nodes[1].Name, relay)
+						}
+						w.Stats.Inc("deep-channel-burst")
+						break
+					}
+				}
+				continue
+			}
 			e.RandomUserOp(w.Nodes[ch.Int(len(w.Nodes))], uni)
 		case 1:
 			if it := pickPending(c, e); it != nil {
